@@ -55,8 +55,21 @@ PrefixOK(e) ==
   /\ \A i \in 1..Len(e.probes) :
        LET D == DecBlock(e.rev, e.asts, SubSeq(e.bytes, 1, e.probes[i]), 0) IN ~(D.ok /\ D.p = e.probes[i])
 
+\* C06: a mutated encoding was decoded by the library: it returned (no panic, no hang, the process did not abort);
+\* what it accepted is consistent; and where the specification's own decoder accepts the same bytes the values
+\* the library returned are the specification's
+HostileOK(e) ==
+  /\ e.panic = "" /\ ~e.hang /\ e.abort = "" /\ e.inconsistent = ""
+  /\ (e.err = "" /\ e.path = "typed" =>
+        LET D == DecBlock(e.rev, e.asts, e.bytes, 0) IN
+        (D.ok /\ Len(D.v.cols) = Len(e.cols)) =>
+           (D.v.rows = e.rows /\ \A i \in 1..Len(e.cols) : e.cols[i] = D.v.cols[i].vals))
+HostileAggOK(e) == e.panics = 0 /\ e.inconsistent = 0 /\ e.mutants = e.rejected + e.accepted
+
 Init == l = 1
 LineOK == CASE Ev.ev = "Block" -> BlockOK(Ev)
+            [] Ev.ev = "Hostile" -> HostileOK(Ev)
+            [] Ev.ev = "HostileAgg" -> HostileAggOK(Ev)
             [] Ev.ev = "Prefix" -> PrefixOK(Ev)
             [] Ev.ev = "Decode" -> DecodeOK(Ev)
             [] OTHER -> FALSE
